@@ -25,7 +25,7 @@ var c07Menu = []string{
 	"cat <<E\nx\nE\n", "cat <<E <<F\nx\nE\ny\nF\n", "cat <<-E\n\tx\n\tE\n", "cat <<'E'\n$x\nE\n", "{ cat <<E\nx\nE\n}\n", "cat <<E | b\nx\nE\n", "cat <<E &&\nx\nE\nb\n",
 	"cat <<E\nE\n", "cat <<E\n\nE\n", "cat <<-A <<B\nx\n\tA\n\tB\ny\nB\n", "cat <<B\n\tB\nB\n", "cat <<E; b\nx\nE\n", "if cat <<E\nx\nE\nthen b; fi\n",
 	"((1 +\n2)) # c\n", "a 'q\nq' # c\n", "a $(b\nc) # c\n", "a \\\nb # c\n", "a \"d\n\" # c\n", "{ a 'q\nq' # c\nb\n}\n", "cat <<-E\n\t\tx\n\t\tE\n",
-	"a # c\n", "a; # c\n", "{ a # c\n}\n", "a | # c\nb\n",
+	"a # c\n", "a; # c\n", "{ a # c\n}\n", "a | # c\nb\n", "a # c \\\n", "a b # `'\")\\\n",
 	"a \\\nb\n", "a &&\\\n b\n", "a\\\n\n",
 	"\n", "  \n", "\t\n",
 	"cat <<E\"O\"F\n`\nEOF\n", "cat <<E\\F\n$(\nEF\n", "cat <<E''\n${\nE\n", "cat <<E'F' <<G\n$(\nEF\n$v\nG\n",
@@ -239,7 +239,7 @@ func init() {
 	register(&check{
 		id:    "C07",
 		level: "model_checking",
-		rule: "every stream that is a concatenation of ≤ 3 (quick) / 4 (thorough) commands from a 75-entry menu (single-line, multi-line compound, one and two here-documents incl. <<- and quoted delimiters, here-documents before | && ; and inside compounds and substitutions, trailing comments, line continuations, blank lines, multi-line quotes and substitutions), " +
+		rule: "every stream that is a concatenation of ≤ 3 (quick) / 4 (thorough) commands from an 85-entry menu (single-line, multi-line compound, one and two here-documents incl. <<- and quoted delimiters, here-documents before | && ; and inside compounds and substitutions, trailing comments, line continuations, blank lines, multi-line quotes and substitutions), " +
 			"each also with the last command lacking its final newline, read from a strings.Reader and from a custom RuneScanner; state = reader offset, transition = one ParseCommands call; non-trivial = streams of ≥ 2 commands",
 		assume: []string{"the end of every command is known by construction of the stream; the result of parsing the command's text alone is the reference for the result of the corresponding call",
 			"comment-only lines are not in the menu (go.sh's own tests pin that they are skipped together with the following blank lines)"},
